@@ -218,18 +218,25 @@ class HttpWebServerPlugin(HttpProtocolHandlerPlugin):
         if self.request.is_complete and \
                 self.request.is_http_1_1_keep_alive and \
                 self.route is not None:
-            if self.pipeline_request is None:
-                self.pipeline_request = HttpParser(
-                    httpParserTypes.REQUEST_PARSER,
-                )
-            self.pipeline_request.parse(raw)
-            if self.pipeline_request.is_complete:
-                self.route.handle_request(self.pipeline_request)
-                if not self.pipeline_request.is_http_1_1_keep_alive:
-                    raise HttpProtocolException(
-                        'Pipelined request is not keep-alive, will tear down request...',
+            # A single read can carry more than one pipelined request,
+            # keep going until the data has been consumed.
+            data: Optional[memoryview] = raw
+            while data is not None:
+                if self.pipeline_request is None:
+                    self.pipeline_request = HttpParser(
+                        httpParserTypes.REQUEST_PARSER,
                     )
-                self.pipeline_request = None
+                self.pipeline_request.parse(data)
+                data = None
+                if self.pipeline_request.is_complete:
+                    self.route.handle_request(self.pipeline_request)
+                    if not self.pipeline_request.is_http_1_1_keep_alive:
+                        raise HttpProtocolException(
+                            'Pipelined request is not keep-alive, will tear down request...',
+                        )
+                    # Bytes following the request belong to the next one
+                    data = self.pipeline_request.buffer
+                    self.pipeline_request = None
 
     def on_response_chunk(self, chunk: List[memoryview]) -> List[memoryview]:
         self._response_size += sum(len(c) for c in chunk)
